@@ -350,6 +350,9 @@ def getattr_sym(I, st, v, name, fr, k):
 def _is_instance_field(I, hint, name):
     if field_hint(I, hint, name) is not None:
         return True
+    ent = I.w.facts["classes"].get(hint) or {}
+    if name in (ent.get("namedtuple_fields") or ()):
+        return True
     return any((c, name) in INSTANCE_FIELDS for c in I.w.class_mro.get(hint, [hint]))
 
 
@@ -358,7 +361,23 @@ INSTANCE_FIELDS = {("builtins.BaseException", "__traceback__"), ("builtins.BaseE
 
 
 def call_sym(I, st, f, args, kwargs, fr, k):
-    raise Unsupported(f"call of symbolic callable {f!r}")
+    """Call of a value we only know as a reference (a class looked up in a table, a user callback).
+    Allowed only when the sidecar declares how to treat it: `c.opaque_calls = {'<local name>': 'ctor'}`:
+    'ctor' = allocates and returns a fresh object, modifies nothing that existed, may raise any Exception."""
+    mode = getattr(I.cur, "opaque_calls", {}).get(getattr(f, "origin", None)) if I.cur else None
+    if mode != "ctor":
+        raise Unsupported(f"call of symbolic callable {f!r}")
+    note(I, f"call through `{f.origin}`: opaque constructor (fresh result, no effect on existing objects, may raise any Exception)")
+    st.events.append(("Call", {"callee": f, "args": list(args), "kwargs": dict(kwargs)}))
+    outs = []
+    s2 = st.fork()
+    exc = I.mk_exc(s2, "~builtins.Exception")
+    s2.fact(I.w.isinstance_term(exc.t, ["builtins.Exception"]))
+    outs.append(Out(s2, "raise", Sym(exc.t, None)))
+    loc = st.frontier
+    st.frontier = z3.simplify(st.frontier + 1)
+    st.version += 1
+    return outs + k(st, Sym(mk_ref(loc)))
 
 
 # ------------------------------------------------------------------------- subscripts
@@ -471,6 +490,17 @@ def delitem(I, st, c, key, fr, k):
     if isinstance(c, Sym):
         if c.hint and c.hint in USER_DELITEM:
             return USER_DELITEM[c.hint](I, st, c, key, fr, k)
+        t = c.t
+        kt = as_sym(I, st, key).t
+        def kd(s2):
+            loc = get_loc(t)
+            has = s2.read(HAS, loc)
+            def ok(s3):
+                s3.write(HAS, loc, z3.Store(has, kt, z3.BoolVal(False)))
+                s3.write(LEN, loc, s3.read(LEN, loc) - 1)
+                return k(s3, None)
+            return I.branch(s2, z3.Select(has, kt), ok, lambda s3: I.raise_(s3, "builtins.KeyError"))
+        return I.branch(st, I.w.isinstance_term(t, ["builtins.dict"]), kd, lambda s2: unsupported_path(I, s2, f"del item on {c!r}"))
     raise Unsupported(f"del item on {c!r}")
 
 
@@ -862,6 +892,9 @@ def b_tuple(I, st, args, kwargs, fr, k):
         return k(st, args[0])
     items = concrete_items(I, st, args[0])
     if items is None:
+        if isinstance(args[0], Sym):
+            note(I, "tuple(x) of an opaque iterable is a function of its content (uninterpreted)")
+            return k(st, Sym(uf_v("tuple_of", args[0].t)))
         raise Unsupported("tuple() of symbolic iterable")
     return k(st, Tup(items))
 
@@ -892,6 +925,9 @@ def b_frozenset(frozen):
             return k(st, LSet([], frozen))
         if isinstance(args[0], LSet):
             return k(st, LSet(args[0].items, frozen))
+        if isinstance(args[0], ItemsOf):
+            note(I, "frozenset(m.items()) is a function of the mapping's content (uninterpreted; injective on content by definition)")
+            return k(st, Sym(uf_v("frozenset_items", args[0].src.t)))
         items = concrete_items(I, st, args[0])
         if items is None:
             return USER_SET_FROM(I, st, args[0], frozen, fr, k)
@@ -1036,6 +1072,18 @@ def b_re_fn(mode):
     return f
 
 
+class ItemsOf(Value):
+    """`m.items()` of a mapping we know nothing about."""
+    __slots__ = ("src",)
+
+    def __init__(self, src):
+        self.src = src
+
+
+def uf_v(name, *ts):
+    return z3.Function("uf_" + name, *([V] * len(ts)), V)(*ts)
+
+
 class OpaqueIter(Value):
     """An iterator producing at most `maxlen` items we know nothing about (over-approximation)."""
     __slots__ = ("maxlen",)
@@ -1117,6 +1165,9 @@ def construct(I, st, q, args, kwargs, fr, k):
     if ent.get("namedtuple_fields"):
         fields = ent["namedtuple_fields"]
         vals = dict(zip(fields, args)); vals.update(kwargs)
+        extra = [k_ for k_ in kwargs if k_ not in fields]
+        if extra or len(args) > len(fields):
+            return type_error(I, st, f"namedtuple got unexpected field(s) {extra}")
         loc = I.alloc(st, q)
         for fname in fields:
             if fname not in vals:
